@@ -44,7 +44,8 @@ EXHAUSTIVE = {
 ASSUMPTIONS = ["don't-care: `running` after a non-Quit exception",
                'clock readings are dyadic rationals (differences exact)']
 
-TERMINATORS = ['quit', 'quit_loop_world', 'quit_loop_default', 'harness']
+TERMINATORS = ['quit', 'quit_loop_world', 'quit_loop_default', 'harness',
+               'quit_handler_raises']
 SWITCHES = ['switch', 'raise_switch', 'switch_self']
 
 
@@ -139,6 +140,9 @@ def run_case(case):
 
     def on_quit(self):
         log.append(('on_quit', state['start'], state['iter'], self.wi))
+        if fault['kind'] == 'quit_handler_raises':
+            fault['obj'] = HarnessError('fault in on_quit')
+            raise fault['obj']
 
     Listener = desper.event_handler('on_quit')(
         type('QuitListener', (), {'on_quit': on_quit}))
@@ -172,7 +176,7 @@ def run_case(case):
         fault['kind'] = kind
         if kind == 'quit':
             raise desper.Quit()
-        if kind == 'quit_loop_world':
+        if kind in ('quit_loop_world', 'quit_handler_raises'):
             desper.quit_loop(worlds[wi])
         if kind == 'quit_loop_default':
             desper.quit_loop()
@@ -272,11 +276,12 @@ def judge_start(case, res, s, events, log, reads, outcome, fault, loop,
     term = model[-1]['fault']
     kind = term[2] if term is not None else None
     # ---- how the start ended
-    want_outcome = 'raised' if kind == 'harness' else 'returned'
+    want_outcome = 'raised' if kind in ('harness', 'quit_handler_raises') \
+        else 'returned'
     if outcome != want_outcome:
         return fail('start-outcome', f'start() #{s} with a {kind} fault',
                     want_outcome, outcome)
-    if kind != 'harness' and loop.running is not False:
+    if want_outcome == 'returned' and loop.running is not False:
         return fail('running-after-quit', 'loop.running after Quit', False,
                     loop.running)
     cur = state['cur_after']
@@ -330,7 +335,7 @@ def judge_start(case, res, s, events, log, reads, outcome, fault, loop,
             values[-1] - values[0]), str(total))
     # ---- on_quit
     quits = [e for e in log if e[0] == 'on_quit']
-    if kind in ('quit_loop_world', 'quit_loop_default'):
+    if kind in ('quit_loop_world', 'quit_loop_default', 'quit_handler_raises'):
         w = model[-1]['world']
         if [e[3] for e in quits] != [w]:
             return fail('on-quit', 'on_quit deliveries before a quit_loop '
